@@ -123,7 +123,7 @@ func (c *Check) expiredBatchRules(prefix string, which map[string]bool) {
 			if iEnq >= 0 {
 				add("continuation", "a context is both removed and given a next batch", pa)
 			}
-			if !(completed || noNext) {
+			if !(completed || noNext) && !af.Holds(mk("||", mk("==", st, c.constTerm("types.COMPLETED")), mk("!", hn)), true) {
 				add("continuation", "the context is removed although it is not COMPLETED and a batch may be left", pa)
 			}
 			if iDeq9 > iDelCtx {
@@ -132,7 +132,7 @@ func (c *Check) expiredBatchRules(prefix string, which map[string]bool) {
 		default:
 			nKeep++
 			// a context survives its batch expiry only if a batch is left and it is not completed
-			if !hasNext {
+			if !hasNext && !af.Holds(hn, true) {
 				add("continuation", "a context survives the expiry of its batch without the path establishing that a batch is left (Repeated ∧ (RepeatedTotal<0 ∨ BatchCounter<RepeatedTotal))", pa)
 			}
 			if completed {
@@ -362,6 +362,10 @@ func (c *Check) heightSkeletons(prefix string) {
 			c.req(ok, prefix+".heights", effConstruct("EndBlocker", e)+"#marker-height", e.Pos, "the pending marker carries BlockHeight + context.Timeout: "+shortTerm(k[2]))
 			marker = append(marker, k[2].String())
 		case "0x10":
+			if len(k) < 2 {
+				c.fail(prefix+".heights", effConstruct("EndBlocker", e)+"#batch-height", e.Pos, "new-batch key not understood: "+shortTerm(e.Key))
+				continue
+			}
 			h := k[1].String()
 			ok := h == "BlockHeight" || (strings.HasPrefix(h, "(+ (- BlockHeight (.RequestContext.Timeout ") && strings.Contains(h, ".RequestContext.RepeatedFrequency"))
 			c.req(ok, prefix+".heights", effConstruct("EndBlocker", e)+"#batch-height", e.Pos, "a batch is queued at BlockHeight or BlockHeight − Timeout + RepeatedFrequency: "+shortTerm(k[1]))
